@@ -42,6 +42,15 @@ CHECKS = {
         note='Trusted: shadow-stack rule of the reference tracer (call = push of next-instruction address + jump), /proc/pid/mem. Single-threaded '
              'programs here; other threads are covered by the C09 workload.',
         ref='DESIGN.md §4 C05'),
+    'C06': dict(
+        technique='runtime monitoring: structural comparison of the debugger\'s Value trees with the debuggee\'s own canonical self-description (reference model = safe Rust in the program)',
+        text='Generated programs hold ~40 variables each (locals, statics, thread-locals, arguments) from a recursive type grammar with boundary '
+             'values and collections built by operation histories (tombstoned and dense hash tables, wrapped VecDeque rings, multi-level B-trees); '
+             'every Value tree returned by the debugger is compared with what the program prints about itself: scalars bit-exact, sequences in '
+             'order, sets/maps as multisets, enum variant and payload, pointer targets. Held on the variables explored except the known findings.',
+        note='Trusted: the Canon trait implementations in the generated program (safe Rust iteration) and the native run. Slices are shown by '
+             'BugStalker as (data_ptr, length); only those facts are judged for slices.',
+        ref='DESIGN.md §4 C06'),
 }
 
 NOT_APPLICABLE = {
